@@ -414,10 +414,10 @@ FAMILIES = {
                                 sim=[dict(nobj=3, caps="Caps3", num=6000, simlen=40), dict(nobj=4, caps="Caps3", num=4000, simlen=50)])),
     "consume": dict(ops="OpsConsume", menu="MenuPlain", profile="consume",
                     invs=["MC_C12", "MC_C01", "MC_C03"],
-                    quick=dict(mc=[dict(nobj=2, caps="CapsQ")],
-                               sim=[dict(nobj=3, caps="Caps3", num=600, simlen=30)]),
-                    thorough=dict(mc=[dict(nobj=3, caps="CapsQ", ops="OpsConsumeQ")],
-                                  sim=[dict(nobj=3, caps="Caps3", num=6000, simlen=40), dict(nobj=4, caps="Caps3", num=4000, simlen=50)])),
+                    quick=dict(mc=[dict(nobj=2, caps="CapsCE")],
+                               sim=[dict(nobj=3, caps="CapsCE3", num=600, simlen=30)]),
+                    thorough=dict(mc=[dict(nobj=2, caps="CapsCE"), dict(nobj=3, caps="CapsQ", ops="OpsConsumeQ")],
+                                  sim=[dict(nobj=3, caps="CapsCE3", num=6000, simlen=40), dict(nobj=4, caps="CapsCE3", num=4000, simlen=50)])),
     "stale": dict(ops="OpsCore", menu="MenuPlain", profile="stale",
                   invs=["MC_C13x", "MC_C06", "MC_C08", "MC_C04"],
                   quick=dict(mc=[dict(nobj=2, caps="CapsS")],
